@@ -334,6 +334,8 @@ def solve(m, solver):
     sol = m.solution
     if sol is None or sol.x is None or np.isnan(sol.objval):
         return None
+    if 'lose' in str(sol.status):      # ECOS exit flag 10 'Close to optimal': reduced accuracy, treated as unsolved
+        return None
     return m.get()
 
 
